@@ -223,6 +223,10 @@ class Peer:
             tr.peer_close(d, OSError(err, "reset") if err else None)
         elif k == "eof":
             tr.peer_close(d, None, eof=True)
+        elif k in ("anseof", "ansclose"):
+            # a valid answer; afterwards - the request is done, the connection idle - the peer closes (orderly / abruptly)
+            tr.deliver(ans, d, "ans")
+            tr.peer_close(f.get("d2", d + 1), None, eof=(k == "anseof"))
         elif k == "anserr":
             # a valid answer, then an OS-level error on the same transport (request already done)
             tr.deliver(ans, d, "ans")
